@@ -198,4 +198,459 @@ theorem eval_range_str_sound (op : BinaryOp) (val mn mx v : Rs.Str) (h1 : Rs.byt
   · exact bytes_lt_le h h2
   · exact bytes_le_trans h h2
 
+/-! ### what statistics promise (`StatsOf`) and the float side conditions -/
+
+def Stats.isInt : Stats → Bool
+  | .int64 _ _ => true | .int32 _ _ => true | _ => false
+def Stats.isDouble : Stats → Bool
+  | .double _ _ => true | _ => false
+def Stats.isBytes : Stats → Bool
+  | .bytes _ _ => true | _ => false
+/-- statistics of column `c` against the rows of its row group: min / max bound every non-NULL value under the column's order,
+    `null_count = 0` is exact, and the cells have the statistics' physical type -/
+structure ColOK (rows : List (List Cell)) (c : Nat) (cm : ColMeta) : Prop where
+  nulls : cm.nullCount = some 0 → ∀ row ∈ rows, row.getD c .null ≠ .null
+  ints : ∀ mn mx, cm.stats.intBounds = some (mn, mx) → ∀ row ∈ rows, ∀ v, row.getD c .null = .int v → mn ≤ v ∧ v ≤ mx
+  doubles : ∀ mn mx, cm.stats = .double (some mn) (some mx) → mn.isNaN = false ∧ mx.isNaN = false ∧
+      ∀ row ∈ rows, ∀ x, row.getD c .null = .f64 x → F64.le mn x = true ∧ F64.le x mx = true
+  bytes : ∀ mn mx, cm.stats = .bytes (some (some mn)) (some (some mx)) →
+      ∀ row ∈ rows, ∀ s, row.getD c .null = .str s → Rs.bytesLe mn.utf8 s.utf8 = true ∧ Rs.bytesLe s.utf8 mx.utf8 = true
+  tyInt : cm.stats.isInt = true → ∀ row ∈ rows, row.getD c .null = .null ∨ ∃ v, row.getD c .null = .int v
+  tyDouble : cm.stats.isDouble = true → ∀ row ∈ rows, row.getD c .null = .null ∨ ∃ x, row.getD c .null = .f64 x
+  tyBytes : cm.stats.isBytes = true → ∀ row ∈ rows, row.getD c .null = .null ∨ ∃ s, row.getD c .null = .str s
+
+def StatsOf (rows : List (List Cell)) (rg : Rg) : Prop := ∀ c cm, rg[c]? = some (some cm) → ColOK rows c cm
+
+/-- the stated float hypothesis: no NaN and no negative zero among the cells (so IEEE statistics and total-order predicates agree),
+    and `ofInt` (`as f64`) is monotone and produces ordinary floats -/
+structure Tame (ofInt : Int → F64) (rows : List (List Cell)) : Prop where
+  cells : ∀ row ∈ rows, ∀ c x, row.getD c .null = .f64 x → fOk x
+  ofIntOk : ∀ n, fOk (ofInt n)
+  mono : ∀ a b, a ≤ b → F64.le (ofInt a) (ofInt b) = true
+
+def litOk (o : Opd) : Prop := ∀ x, o = .lit (.f64 x) → fOk x
+
+def LitsOk : PE → Prop
+  | .cmp _ l r => litOk l ∧ litOk r
+  | .and a b => LitsOk a ∧ LitsOk b
+  | .or a b => LitsOk a ∧ LitsOk b
+  | .not e => LitsOk e
+  | .between e lo hi _ => litOk e ∧ litOk lo ∧ litOk hi
+  | .inList e items _ => litOk e ∧ ∀ i ∈ items, litOk i
+  | .other => True
+
+/-! ### comparisons -/
+
+theorem satS_flip (op : BinaryOp) (a b : Rs.Str) (hop : isCmpOp op = true) : satS (flip_op op) a b = satS op b a := by
+  cases op <;> simp_all [flip_op, satS, isCmpOp, eq_comm]
+
+theorem cmpCells_flip (ofInt : Int → F64) (op : BinaryOp) (hop : isCmpOp op = true) (a b : Cell) :
+    cmpCells ofInt (flip_op op) a b = cmpCells ofInt op b a := by
+  cases a <;> cases b <;> simp [cmpCells, satI_flip _ _ _ hop, satF_flip _ _ _ hop, satS_flip _ _ _ hop]
+
+theorem colLit_spec {l r : Opd} {c : Nat} {lit : Lit} {fl : Bool} (h : colLit l r = some (c, lit, fl)) :
+    (l = .col c ∧ r = .lit lit ∧ fl = false) ∨ (l = .lit lit ∧ r = .col c ∧ fl = true) := by
+  cases l <;> cases r <;> simp [colLit] at h
+  · obtain ⟨rfl, rfl, rfl⟩ := h; exact Or.inl ⟨rfl, rfl, rfl⟩
+  · obtain ⟨rfl, rfl, rfl⟩ := h; exact Or.inr ⟨rfl, rfl, rfl⟩
+
+/-- the comparison as "column (effective op) literal" -/
+theorem sem_colLit (ofInt : Int → F64) (oth : List Cell → Cell) (row : List Cell) {l r : Opd} {c : Nat} {lit : Lit} {fl : Bool}
+    (h : colLit l r = some (c, lit, fl)) (op : BinaryOp) (hop : isCmpOp op = true) :
+    cmpCells ofInt op (l.val oth row) (r.val oth row) = cmpCells ofInt (if fl then flip_op op else op) (row.getD c .null) lit.cell := by
+  rcases colLit_spec h with ⟨rfl, rfl, rfl⟩ | ⟨rfl, rfl, rfl⟩
+  · simp [Opd.val]
+  · simp [Opd.val, cmpCells_flip ofInt op hop]
+
+theorem litOk_colLit {l r : Opd} {c : Nat} {lit : Lit} {fl : Bool} (h : colLit l r = some (c, lit, fl)) (hl : litOk l) (hr : litOk r) :
+    ∀ x, lit = .f64 x → fOk x := by
+  intro x hx
+  rcases colLit_spec h with ⟨_, rfl, _⟩ | ⟨rfl, _, _⟩
+  · exact hr x (by rw [hx])
+  · exact hl x (by rw [hx])
+
+theorem tables_noncmp (dev : Dev) (st : Stats) (eop : BinaryOp) (he : isCmpOp eop = false) :
+    (∀ v, checkI64 st eop v = true) ∧ (∀ v, checkI32 dev st eop v = true) ∧ (∀ v, checkF64 st eop v = true) ∧ (∀ v, checkUtf8 st eop v = true) := by
+  refine ⟨fun v => ?_, fun v => ?_, fun v => ?_, fun v => ?_⟩
+  · unfold checkI64; split <;> (try rfl) <;> cases eop <;> simp_all [isCmpOp, eval_range]
+  · unfold checkI32; split <;> (try rfl) <;> (try split) <;> cases eop <;> simp_all [isCmpOp, eval_range, eval_range_i32]
+  · unfold checkF64; split <;> (try rfl) <;> cases eop <;> simp_all [isCmpOp, eval_range_f64]
+  · unfold checkUtf8; split <;> (try rfl) <;> cases eop <;> simp_all [isCmpOp, eval_range_str]
+
+theorem checkComparison_noncmp (dev : Dev) (l r : Opd) (op : BinaryOp) (rg : Rg) (hop : isCmpOp op = false) :
+    checkComparison dev l op r rg = true := by
+  unfold checkComparison
+  cases hcl : colLit l r with
+  | none => rfl
+  | some t =>
+    obtain ⟨c, lit, fl⟩ := t
+    simp only
+    cases hrg : rg[c]? with
+    | none => rfl
+    | some o =>
+      cases o with
+      | none => rfl
+      | some cm =>
+        simp only
+        have hf : isCmpOp (if fl = true then flip_op op else op) = false := by cases fl <;> simp [isCmpOp_flip, hop]
+        obtain ⟨h1, h2, h3, h4⟩ := tables_noncmp dev cm.stats _ hf
+        cases lit <;> simp [h1, h2, h3, h4]
+
+theorem intBounds_spec {st : Stats} {mn mx : Int} (h : st.intBounds = some (mn, mx)) :
+    (st = .int64 (some mn) (some mx) ∨ st = .int32 (some mn) (some mx)) ∧ st.isInt = true := by
+  unfold Stats.intBounds at h
+  split at h <;> simp at h <;> obtain ⟨rfl, rfl⟩ := h <;> simp [Stats.isInt]
+
+/-- column-vs-literal, integer statistics -/
+theorem int_case {ofInt : Int → F64} {rows : List (List Cell)} {c : Nat} {cm : ColMeta} (hc : ColOK rows c cm)
+    {row : List Cell} (hrow : row ∈ rows) {mn mx : Int} (hb : cm.stats.intBounds = some (mn, mx)) {eop : BinaryOp} {v : Int}
+    (h : cmpCells ofInt eop (row.getD c .null) (.int v) = some true) :
+    ∃ a, row.getD c .null = .int a ∧ mn ≤ a ∧ a ≤ mx ∧ satI eop a v = true := by
+  rcases hc.tyInt (intBounds_spec hb).2 row hrow with hn | ⟨a, ha⟩
+  · rw [hn] at h; simp [cmpCells] at h
+  · obtain ⟨h1, h2⟩ := hc.ints mn mx hb row hrow a ha
+    rw [ha] at h
+    exact ⟨a, ha, h1, h2, by simpa [cmpCells] using h⟩
+
+/-- `check_comparison` is sound for the intended algorithm: a row on which `l op r` is TRUE keeps its row group -/
+theorem checkComparison_sound (ofInt : Int → F64) (oth : List Cell → Cell) {rows : List (List Cell)} {rg : Rg}
+    (hst : StatsOf rows rg) (ht : Tame ofInt rows) {row : List Cell} (hrow : row ∈ rows) (l r : Opd) (hl : litOk l) (hr : litOk r)
+    (op : BinaryOp) (hop : isCmpOp op = true) (h : cmpCells ofInt op (l.val oth row) (r.val oth row) = some true) :
+    checkComparison Dev.none l op r rg = true := by
+  unfold checkComparison
+  cases hcl : colLit l r with
+  | none => rfl
+  | some t =>
+    obtain ⟨c, lit, fl⟩ := t
+    simp only
+    cases hrg : rg[c]? with
+    | none => rfl
+    | some o =>
+      cases o with
+      | none => rfl
+      | some cm =>
+        simp only
+        have hc := hst c cm hrg
+        rw [sem_colLit ofInt oth row hcl op hop] at h
+        generalize (if fl = true then flip_op op else op) = eop at h ⊢
+        have hlit := litOk_colLit hcl hl hr
+        cases lit with
+        | i64 v =>
+          simp only [Lit.cell] at h
+          simp only [checkI64]
+          split <;> try rfl
+          all_goals (
+            rename_i mn mx hstats
+            have hb : cm.stats.intBounds = some (mn, mx) := by rw [hstats]; rfl
+            obtain ⟨a, _, h1, h2, hs⟩ := int_case hc hrow hb h
+            exact eval_range_sound _ _ _ _ a h1 h2 hs)
+        | ts v =>
+          simp only [Lit.cell] at h
+          simp only [checkI64]
+          split <;> try rfl
+          all_goals (
+            rename_i mn mx hstats
+            have hb : cm.stats.intBounds = some (mn, mx) := by rw [hstats]; rfl
+            obtain ⟨a, _, h1, h2, hs⟩ := int_case hc hrow hb h
+            exact eval_range_sound _ _ _ _ a h1 h2 hs)
+        | i32 v =>
+          simp only [Lit.cell] at h
+          simp only [checkI32, Dev.none, Bool.false_eq_true, if_false]
+          split <;> try rfl
+          · rename_i mn mx hstats
+            have hb : cm.stats.intBounds = some (mn, mx) := by rw [hstats]; rfl
+            obtain ⟨a, _, h1, h2, hs⟩ := int_case hc hrow hb h
+            exact eval_range_i32_sound _ _ _ _ a h1 h2 hs
+          · rename_i mn mx hstats
+            have hb : cm.stats.intBounds = some (mn, mx) := by rw [hstats]; rfl
+            obtain ⟨a, _, h1, h2, hs⟩ := int_case hc hrow hb h
+            exact eval_range_sound _ _ _ _ a h1 h2 hs
+        | date v =>
+          simp only [Lit.cell] at h
+          simp only [checkI32, Dev.none, Bool.false_eq_true, if_false]
+          split <;> try rfl
+          · rename_i mn mx hstats
+            have hb : cm.stats.intBounds = some (mn, mx) := by rw [hstats]; rfl
+            obtain ⟨a, _, h1, h2, hs⟩ := int_case hc hrow hb h
+            exact eval_range_i32_sound _ _ _ _ a h1 h2 hs
+          · rename_i mn mx hstats
+            have hb : cm.stats.intBounds = some (mn, mx) := by rw [hstats]; rfl
+            obtain ⟨a, _, h1, h2, hs⟩ := int_case hc hrow hb h
+            exact eval_range_sound _ _ _ _ a h1 h2 hs
+        | f64 v =>
+          simp only [Lit.cell] at h
+          simp only [checkF64]
+          split <;> try rfl
+          rename_i mn mx hstats
+          obtain ⟨hmn, hmx, hbnd⟩ := hc.doubles mn mx hstats
+          rcases hc.tyDouble (by simp [Stats.isDouble, hstats]) row hrow with hn | ⟨x, hx⟩
+          · rw [hn] at h; simp [cmpCells] at h
+          · obtain ⟨h1, h2⟩ := hbnd row hrow x hx
+            rw [hx] at h
+            exact eval_range_f64_sound _ _ _ _ x hmn hmx (ht.cells row hrow c x hx) (hlit v rfl) h1 h2 (by simpa [cmpCells] using h)
+        | str v =>
+          simp only [Lit.cell] at h
+          simp only [checkUtf8]
+          split <;> try rfl
+          rename_i mn mx hstats
+          rcases hc.tyBytes (by simp [Stats.isBytes, hstats]) row hrow with hn | ⟨x, hx⟩
+          · rw [hn] at h; simp [cmpCells] at h
+          · obtain ⟨h1, h2⟩ := hc.bytes mn mx hstats row hrow x hx
+            rw [hx] at h
+            exact eval_range_str_sound _ _ _ _ x h1 h2 (by simpa [cmpCells] using h)
+        | other => rfl
+
+/-! ### `definite_comparison` -/
+
+theorem definiteInt_cmp {op : BinaryOp} {mn mx v : Int} (h : definiteInt op mn mx v = true) : isCmpOp op = true := by
+  cases op <;> simp_all [definiteInt, isCmpOp]
+theorem definite_table_cmp {op : BinaryOp} {mn mx v : F64} (h : definite_table op mn mx v = true) : isCmpOp op = true := by
+  cases op <;> simp_all [definite_table, isCmpOp]
+
+theorem floatBounds_spec {ofInt : Int → F64} {st : Stats} {mn mx : F64} (h : st.floatBounds ofInt = some (mn, mx)) :
+    (∃ a b, st.intBounds = some (a, b) ∧ mn = ofInt a ∧ mx = ofInt b) ∨ st = .double (some mn) (some mx) := by
+  unfold Stats.floatBounds at h
+  split at h <;> simp at h
+  · obtain ⟨rfl, rfl⟩ := h; exact Or.inl ⟨_, _, rfl, rfl, rfl⟩
+  · obtain ⟨rfl, rfl⟩ := h; exact Or.inl ⟨_, _, rfl, rfl, rfl⟩
+  · obtain ⟨rfl, rfl⟩ := h; exact Or.inr rfl
+
+theorem float?_spec {ofInt : Int → F64} {lit : Lit} {v : F64} (h : lit.float? ofInt = some v) :
+    (∃ n, lit.int? = some n ∧ lit.cell = .int n ∧ v = ofInt n) ∨ lit = .f64 v := by
+  cases lit <;> simp [Lit.float?] at h <;> subst h <;> simp [Lit.int?, Lit.cell]
+
+theorem int?_cell {lit : Lit} {n : Int} (h : lit.int? = some n) : lit.cell = .int n := by
+  cases lit <;> simp [Lit.int?] at h <;> subst h <;> rfl
+
+/-- the tail of `definite_comparison`, intended algorithm: if it says yes, `cell eop literal` is TRUE for every non-NULL cell -/
+theorem definiteCore_sound (ofInt : Int → F64) {rows : List (List Cell)} {c : Nat} {cm : ColMeta} (hc : ColOK rows c cm) (ht : Tame ofInt rows)
+    (lit : Lit) (hlit : ∀ x, lit = .f64 x → fOk x) (eop : BinaryOp) (h : definiteCore Dev.none ofInt cm.stats lit eop = true)
+    {row : List Cell} (hrow : row ∈ rows) (hnn : row.getD c .null ≠ .null) :
+    isCmpOp eop = true ∧ cmpCells ofInt eop (row.getD c .null) lit.cell = some true := by
+  unfold definiteCore at h
+  split at h
+  · rename_i mn mx v hib hil
+    simp only [Dev.none, Bool.false_eq_true, if_false] at h
+    refine ⟨definiteInt_cmp h, ?_⟩
+    rcases hc.tyInt (intBounds_spec hib).2 row hrow with hn | ⟨a, ha⟩
+    · exact absurd hn hnn
+    · obtain ⟨h1, h2⟩ := hc.ints mn mx hib row hrow a ha
+      rw [ha, int?_cell hil]
+      simp [cmpCells, definiteInt_sound _ _ _ _ a h1 h2 h]
+  · split at h
+    · rename_i _ _ hno _ _ mn mx v hfb hfl
+      refine ⟨definite_table_cmp h, ?_⟩
+      rcases floatBounds_spec hfb with ⟨a, b, hib, rfl, rfl⟩ | hst
+      · -- integer statistics, so the literal is a float (an integer literal was handled above)
+        rcases float?_spec hfl with ⟨n, hn, _, _⟩ | rfl
+        · exact absurd hn (fun hh => hno a b n hib hh)
+        · rcases hc.tyInt (intBounds_spec hib).2 row hrow with hn | ⟨x, hx⟩
+          · exact absurd hn hnn
+          · obtain ⟨h1, h2⟩ := hc.ints a b hib row hrow x hx
+            rw [hx]
+            simp only [Lit.cell, cmpCells, Option.some.injEq]
+            exact definite_table_sound _ _ _ _ (ofInt x) (ht.ofIntOk a).1 (ht.ofIntOk b).1 (ht.ofIntOk x) (hlit v rfl)
+              (ht.mono _ _ h1) (ht.mono _ _ h2) h
+      · obtain ⟨hmn, hmx, hbnd⟩ := hc.doubles mn mx hst
+        rcases hc.tyDouble (by simp [Stats.isDouble, hst]) row hrow with hn | ⟨x, hx⟩
+        · exact absurd hn hnn
+        · obtain ⟨h1, h2⟩ := hbnd row hrow x hx
+          rw [hx]
+          rcases float?_spec hfl with ⟨n, _, hcell, rfl⟩ | rfl
+          · rw [hcell]
+            simp only [cmpCells, Option.some.injEq]
+            exact definite_table_sound _ _ _ _ x hmn hmx (ht.cells row hrow c x hx) (ht.ofIntOk n) h1 h2 h
+          · simp only [Lit.cell, cmpCells, Option.some.injEq]
+            exact definite_table_sound _ _ _ _ x hmn hmx (ht.cells row hrow c x hx) (hlit v rfl) h1 h2 h
+    · cases h
+
+/-- `definite_comparison` is sound for the intended algorithm -/
+theorem definiteComparison_sound (ofInt : Int → F64) (oth : List Cell → Cell) {rows : List (List Cell)} {rg : Rg}
+    (hst : StatsOf rows rg) (ht : Tame ofInt rows) (l r : Opd) (hl : litOk l) (hr : litOk r) (op : BinaryOp)
+    (h : definiteComparison Dev.none ofInt l op r rg = true) :
+    isCmpOp op = true ∧ ∀ row ∈ rows, cmpCells ofInt op (l.val oth row) (r.val oth row) = some true := by
+  unfold definiteComparison at h
+  cases hcl : colLit l r with
+  | none => simp [hcl] at h
+  | some t =>
+    obtain ⟨c, lit, fl⟩ := t
+    simp only [hcl] at h
+    cases hrg : rg[c]? with
+    | none => simp [hrg] at h
+    | some o =>
+      cases o with
+      | none => simp [hrg] at h
+      | some cm =>
+        simp only [hrg] at h
+        split at h
+        · cases h
+        · rename_i hnc
+          have hn0 : cm.nullCount = some 0 := by simpa using hnc
+          have hc := hst c cm hrg
+          have hlit := litOk_colLit hcl hl hr
+          have hop : isCmpOp op = true := by
+            cases hrows : rows with
+            | nil =>
+              -- no rows: read the operator off the table
+              unfold definiteCore at h
+              split at h
+              · simp only [Dev.none, Bool.false_eq_true, if_false] at h
+                have := definiteInt_cmp h
+                cases fl <;> simp_all [isCmpOp_flip]
+              · split at h
+                · have := definite_table_cmp h
+                  cases fl <;> simp_all [isCmpOp_flip]
+                · cases h
+            | cons row rest =>
+              have hrow : row ∈ rows := by rw [hrows]; exact List.mem_cons_self ..
+              have := (definiteCore_sound ofInt hc ht lit hlit _ h hrow (hc.nulls hn0 row hrow)).1
+              cases fl <;> simp_all [isCmpOp_flip]
+          refine ⟨hop, fun row hrow => ?_⟩
+          rw [sem_colLit ofInt oth row hcl op hop]
+          exact (definiteCore_sound ofInt hc ht lit hlit _ h hrow (hc.nulls hn0 row hrow)).2
+
+/-! ### the recursive functions -/
+
+theorem and3o_true {a b : Option Bool} : and3o a b = some true ↔ a = some true ∧ b = some true := by
+  cases a <;> cases b <;> (try rename_i x; cases x) <;> (try rename_i y; cases y) <;> simp [and3o]
+theorem or3o_true {a b : Option Bool} : or3o a b = some true ↔ a = some true ∨ b = some true := by
+  cases a <;> cases b <;> (try rename_i x; cases x) <;> (try rename_i y; cases y) <;> simp [or3o]
+theorem not3o_true {a : Option Bool} : not3o a = some true ↔ a = some false := by
+  cases a <;> (try rename_i x; cases x) <;> simp [not3o]
+
+section
+variable (ofInt : Int → F64) (oth : List Cell → Cell) (othP : List Cell → Option Bool)
+
+/-- `row_group_definitely_matches` (intended algorithm) says yes only if the predicate is TRUE on every row -/
+theorem definitely_sound {rows : List (List Cell)} {rg : Rg} (hst : StatsOf rows rg) (ht : Tame ofInt rows) :
+    ∀ (e : PE), LitsOk e → definitelyMatches Dev.none ofInt rg e = true → ∀ row ∈ rows, sem ofInt oth othP row e = some true := by
+  intro e
+  induction e with
+  | cmp op l r =>
+    intro hl h row hrow
+    simp only [definitelyMatches] at h
+    obtain ⟨hop, hall⟩ := definiteComparison_sound ofInt oth hst ht l r hl.1 hl.2 op h
+    simp only [sem, hop, if_true]; exact hall row hrow
+  | and a b iha ihb =>
+    intro hl h row hrow
+    simp only [definitelyMatches, Bool.and_eq_true] at h
+    simp only [sem, and3o_true]
+    exact ⟨iha hl.1 h.1 row hrow, ihb hl.2 h.2 row hrow⟩
+  | or a b iha ihb =>
+    intro hl h row hrow
+    simp only [definitelyMatches, Bool.or_eq_true] at h
+    simp only [sem, or3o_true]
+    rcases h with h | h
+    · exact Or.inl (iha hl.1 h row hrow)
+    · exact Or.inr (ihb hl.2 h row hrow)
+  | not e _ => intro _ h; simp [definitelyMatches] at h
+  | between e lo hi neg =>
+    intro hl h row hrow
+    cases neg
+    · simp only [definitelyMatches, Bool.and_eq_true] at h
+      obtain ⟨_, h1⟩ := definiteComparison_sound ofInt oth hst ht e lo hl.1 hl.2.1 _ h.1
+      obtain ⟨_, h2⟩ := definiteComparison_sound ofInt oth hst ht e hi hl.1 hl.2.2 _ h.2
+      simp only [sem, Bool.false_eq_true, if_false, and3o_true]
+      exact ⟨h1 row hrow, h2 row hrow⟩
+    · simp [definitelyMatches] at h
+  | inList e items neg => intro _ h; simp [definitelyMatches] at h
+  | other => intro _ h; simp [definitelyMatches] at h
+
+theorem inSem_true {x : Cell} : ∀ {vs : List Cell}, inSem ofInt x vs = some true → ∃ v ∈ vs, cmpCells ofInt .Eq x v = some true := by
+  intro vs
+  induction vs with
+  | nil => intro h; simp [inSem] at h
+  | cons v vs ih =>
+    intro h
+    simp only [inSem, or3o_true] at h
+    rcases h with h | h
+    · exact ⟨v, List.mem_cons_self .., h⟩
+    · obtain ⟨w, hw, hc⟩ := ih h
+      exact ⟨w, List.mem_cons_of_mem _ hw, hc⟩
+
+/-- `row_group_might_match` (intended algorithm) never says no for a row group that holds a row on which the predicate is TRUE -/
+theorem might_sound {rows : List (List Cell)} {rg : Rg} (hst : StatsOf rows rg) (ht : Tame ofInt rows) :
+    ∀ (e : PE), LitsOk e → (∃ row ∈ rows, sem ofInt oth othP row e = some true) → mightMatch Dev.none ofInt rg e = true := by
+  intro e
+  induction e with
+  | cmp op l r =>
+    intro hl ⟨row, hrow, h⟩
+    simp only [mightMatch]
+    cases hop : isCmpOp op
+    · exact checkComparison_noncmp _ _ _ _ _ hop
+    · simp only [sem, hop, if_true] at h
+      exact checkComparison_sound ofInt oth hst ht hrow l r hl.1 hl.2 op hop h
+  | and a b iha ihb =>
+    intro hl ⟨row, hrow, h⟩
+    simp only [sem, and3o_true] at h
+    simp only [mightMatch, Bool.and_eq_true]
+    exact ⟨iha hl.1 ⟨row, hrow, h.1⟩, ihb hl.2 ⟨row, hrow, h.2⟩⟩
+  | or a b iha ihb =>
+    intro hl ⟨row, hrow, h⟩
+    simp only [sem, or3o_true] at h
+    simp only [mightMatch, Bool.or_eq_true]
+    rcases h with h | h
+    · exact Or.inl (iha hl.1 ⟨row, hrow, h⟩)
+    · exact Or.inr (ihb hl.2 ⟨row, hrow, h⟩)
+  | not e _ =>
+    intro hl ⟨row, hrow, h⟩
+    simp only [sem, not3o_true] at h
+    simp only [mightMatch, Bool.not_eq_true']
+    cases hd : definitelyMatches Dev.none ofInt rg e
+    · rfl
+    · have := definitely_sound ofInt oth othP hst ht e hl hd row hrow
+      rw [h] at this; cases this
+  | between e lo hi neg =>
+    intro hl ⟨row, hrow, h⟩
+    cases neg
+    · simp only [sem, Bool.false_eq_true, if_false, and3o_true] at h
+      simp only [mightMatch, Bool.false_eq_true, if_false, Bool.and_eq_true]
+      exact ⟨checkComparison_sound ofInt oth hst ht hrow e lo hl.1 hl.2.1 _ rfl h.1,
+             checkComparison_sound ofInt oth hst ht hrow e hi hl.1 hl.2.2 _ rfl h.2⟩
+    · simp [mightMatch]
+  | inList e items neg =>
+    intro hl ⟨row, hrow, h⟩
+    cases neg
+    · simp only [sem, Bool.false_eq_true, if_false] at h
+      obtain ⟨v, hv, hc⟩ := inSem_true ofInt h
+      obtain ⟨it, hit, rfl⟩ := List.mem_map.mp hv
+      simp only [mightMatch, Bool.false_eq_true, if_false, List.any_eq_true]
+      exact ⟨it, hit, checkComparison_sound ofInt oth hst ht hrow e it hl.1 (hl.2 it hit) _ rfl hc⟩
+    · simp [mightMatch]
+  | other => intro _ _; rfl
+
+/-- the row filter on a predicate: rows on which it is TRUE -/
+def keepRows (e : PE) (rows : List (List Cell)) : List (List Cell) :=
+  rows.filter (fun row => sem ofInt oth othP row e == some true)
+
+/-- pruning never changes the filtered answer: the row groups `prune_row_groups` drops contribute no row -/
+theorem prune_invariant (e : PE) (hl : LitsOk e) : ∀ (data : List (Rg × List (List Cell))),
+    (∀ d ∈ data, StatsOf d.2 d.1 ∧ Tame ofInt d.2) →
+    (data.filter (fun d => mightMatch Dev.none ofInt d.1 e)).flatMap (fun d => keepRows ofInt oth othP e d.2)
+      = data.flatMap (fun d => keepRows ofInt oth othP e d.2) := by
+  intro data
+  induction data with
+  | nil => intro _; rfl
+  | cons d ds ih =>
+    intro h
+    have ihd := ih (fun x hx => h x (List.mem_cons_of_mem _ hx))
+    obtain ⟨hst, ht⟩ := h d (List.mem_cons_self ..)
+    simp only [List.filter_cons, List.flatMap_cons]
+    cases hm : mightMatch Dev.none ofInt d.1 e
+    · -- pruned: it had no matching row
+      have hempty : keepRows ofInt oth othP e d.2 = [] := by
+        simp only [keepRows, List.filter_eq_nil_iff, beq_iff_eq]
+        intro row hrow hsem
+        have := might_sound ofInt oth othP hst ht e hl ⟨row, hrow, hsem⟩
+        rw [hm] at this; cases this
+      simp [hempty, ihd]
+    · simp [ihd]
+
+/-- dropping the row filter for a "definitely matching" row group keeps exactly its rows -/
+theorem definite_keeps_all {rows : List (List Cell)} {rg : Rg} (hst : StatsOf rows rg) (ht : Tame ofInt rows) (e : PE) (hl : LitsOk e)
+    (h : definitelyMatches Dev.none ofInt rg e = true) : keepRows ofInt oth othP e rows = rows := by
+  simp only [keepRows, List.filter_eq_self, beq_iff_eq]
+  exact fun row hrow => definitely_sound ofInt oth othP hst ht e hl h row hrow
+end
+
 end IQE.Engine.Pruning
